@@ -171,9 +171,8 @@ theorem agree_leaf (hE : CastIdem E) (t : TraitType) (d : Desc) (v : Val)
     | ok w => by_cases h : pyInRangeF lo hi exLo exHi (floatOf w) = true <;> simp [h, Agree]
     | error e => cases e <;> simp [Agree]
   case enum vals =>
-    simp only [fastAlone, pyValidate, pyEnumValidate]
-    repeat' split
-    all_goals simp_all [Agree]
+    simp only [fastAlone, pyValidate, pySafeEnumValidate]
+    cases seqContains vals v <;> simp [Agree]
   case map keys vals =>
     simp only [fastAlone, pyValidate, pyMapValidate]
     repeat' split
